@@ -72,7 +72,7 @@ def main():
     rep = Report(PID, 'translation_validation', 'symbolic execution of the emitted assembly with Turing-jump back-tracking (z3) vs reference interpreter with chronological choice back-tracking')
     quick = rep.tier == 'quick'
     cases = F.time_enumerated(rep.tier) + F.time_examples() + F.time_random(rep.seed, 150 if quick else 2000)
-    widths = [2] if quick else [2, 3, 4]
+    widths = [2, 3, 4] if quick else [2, 3, 4, 8]
     tasks = []
     for W in widths:
         for c in cases:
@@ -92,6 +92,13 @@ def main():
         rep.inconclusive += r.get('inconclusive', [])
         rep.harness_errors += r.get('harness_errors', [])
         rep.distinct_keys.add(r['name'])
+    # `a ?? b` always evaluates b, also when an operand is a compile-time constant (the reference interpreter sees the tree
+    # after constant folding, so this clause is decided against the run-time twin with the constant bound to an input)
+    sys.path.insert(0, os.path.dirname(os.path.abspath(__file__)))
+    import c14
+    import random as _random
+    ttasks = [t for W in ([2] if quick else [2, 3, 4]) for t in c14.make_tasks(W, True, _random.Random(rep.seed)) if '/spec-' in t['name']]
+    run_tasks(rep, ttasks, worker=c14.twin_task, limit=300, sample_every=7)
     rep.rule = ('T-time family: every single construct, every ordered pair (and sampled/all triples) of {undo, stop, undo/stop with defeat in a callee, ??, '
                 'preempt, preemptive defeat function} in one activation, across calls and inside loops; exits out of try; preempt varieties; ?? varieties; '
                 'examples max/mergesort with symbolic arrays (also against independent max/sorted-permutation specifications); seeded random time-travel programs')
